@@ -511,6 +511,30 @@ func (x *Exec) intrinsic(fr *frame, st *State, q string, callee *ssa.Function, a
 		return x.freshResult(st, "sprintf", resT), true
 	case "log.Printf", "log.Println", "log.Print":
 		return Value{}, true
+	case "strings.HasPrefix":
+		// s starts with prefix: pure. Both literal: decided here; literal prefix: its length and
+		// bytes compared one by one; otherwise the standard library body is used if loaded.
+		if len(args) == 2 && len(args[0].L) == 1 && len(args[1].L) == 1 {
+			lit := func(t *Term) (string, bool) {
+				for k, v := range x.strLits {
+					if v == t {
+						return k, true
+					}
+				}
+				return "", false
+			}
+			if p, ok := lit(args[1].L[0]); ok && len(p) <= 32 {
+				if sv, ok := lit(args[0].L[0]); ok {
+					return Value{T: resT, L: []*Term{c.Bool(strings.HasPrefix(sv, p))}}, true
+				}
+				fs := []*Term{c.BVCmp("bvsge", c.App(x.strLenFn(), args[0].L[0]), c.BVI(int64(len(p)), 64))}
+				for i := 0; i < len(p); i++ {
+					fs = append(fs, c.Eq(c.App(x.strAtFn(), args[0].L[0], c.BVI(int64(i), 64)), c.BVU(uint64(p[i]), 8)))
+				}
+				return Value{T: resT, L: []*Term{c.And(fs...)}}, true
+			}
+		}
+		return Value{}, false
 	case "math/bits.Len":
 		// number of bits needed to represent x (uint is 64 bits wide here); bit-vector mode only
 		if len(args) == 1 && len(args[0].L) == 1 && args[0].L[0].Sort.Kind == SBV && args[0].L[0].Sort.W == 64 {
